@@ -85,6 +85,7 @@ def variants(recipe, case):
     jobs = [(dict(kind='sim', recipe=recipe, mask=MASK), 2),
             (dict(kind='sim', recipe=recipe, mask=MASK, warmup=2), 7),
             (dict(kind='sim', recipe=recipe, mask=MASK, patch_uuid=12345), 11),
+            (dict(kind='sim', recipe=recipe, mask=MASK, patch_uuid=777, uuid_same_prefix=1), 2),
             # the process-global container counter stands just below a power of ten (ids are strings)
             (dict(kind='sim', recipe=recipe, mask=MASK, counter_start=[8, 97, 996, 9995][len(recipe['pipes']) % 4]), 5),
             # scaling laws handed over as anonymous callables, after other simulations did the same
@@ -94,7 +95,7 @@ def variants(recipe, case):
         r = sub(job, hs)
         if r['obs'] != case['obs_raw']:
             what = 'a fresh process' + (' after other simulations' if job.get('warmup') else '') + \
-                   (' with other uuid values' if job.get('patch_uuid') else '') + \
+                   (' with other uuid values' + (' sharing their first 32 bits' if job.get('uuid_same_prefix') else '') if job.get('patch_uuid') else '') + \
                    (f' with the container counter at {job["counter_start"]}' if job.get('counter_start') else '') + \
                    (' with the scaling laws passed as callables' if job.get('callable_laws') else '') + \
                    f' (PYTHONHASHSEED={hs})'
